@@ -34,7 +34,7 @@ theorem step_sim {v : Vol} {count : Nat} (hv : VolOK v count) {s : St} (h : Inv 
   unfold specFollow
   by_cases hs : Soft (step v s op).2
   · simp only [hs, ↓reduceIte, not_true_eq_false, false_implies, and_true]
-    have := (hg.2 hs).1
+    have := (hg.2.1 hs).1
     simp [abs, this]
   · simp only [hs, ↓reduceIte, not_false_eq_true, true_implies]
     rcases hr with h1 | ⟨h1, h2⟩
